@@ -73,3 +73,24 @@ def call_with_timeout(fn, args=(), kwargs=None, timeout=5.0):
         p.kill()
     p.join()
     return res
+
+
+def implementation_identifiers(modules=('_dictable', '_dict', '_dictattr', '_perdictable')):
+    """parameter names of every function and lambda in the given pyg_base modules, read from the source of the tree under test.  Tables and
+    mappings hand their columns / items to callables by *name*; a column that happens to be called like a parameter of one of the
+    implementation's own helpers (`lambda v: [v]`, `key`, `value`, `function` ...) is the input class that exposes a name leaking from the
+    implementation into the data."""
+    import ast, os, keyword
+    src = os.path.join(os.environ.get('PYG_REPO', '/repo'), 'src', 'pyg_base')
+    names = set()
+    for m in modules:
+        try:
+            tree = ast.parse(open(os.path.join(src, m + '.py')).read())
+        except (OSError, SyntaxError):
+            continue
+        for n in ast.walk(tree):
+            if isinstance(n, (ast.Lambda, ast.FunctionDef)):
+                a = n.args
+                for q in a.posonlyargs + a.args + a.kwonlyargs:
+                    names.add(q.arg)
+    return sorted(n for n in names - {'self', 'cls'} if n.isidentifier() and not keyword.iskeyword(n))
